@@ -56,7 +56,7 @@ Definition no_reparse : bytes -> option json := fun _ => None.
 
 (* input In { k: Int }   query($x: In)   {"x":{"k":1.5}} *)
 Lemma refuted_int_proof :
-  exists S vds vars, accepts go_quirks S no_reparse vds vars = true /\ coercible_all std S vds vars = false.
+  exists S vds vars, accepts old_quirks S no_reparse vds vars = true /\ coercible_all std S vds vars = false.
 Proof.
   exists (mk_schema [mk_input b_In [mk_field b_k (TNamed n_Int) None]]),
          [mk_var b_x (TNamed b_In) None],
@@ -65,14 +65,14 @@ Proof.
 Qed.
 (* query($x: Int!)   {"x":1e100} *)
 Lemma refuted_int_1e100_proof :
-  exists S vds vars, accepts go_quirks S no_reparse vds vars = true /\ coercible_all std S vds vars = false.
+  exists S vds vars, accepts old_quirks S no_reparse vds vars = true /\ coercible_all std S vds vars = false.
 Proof.
   exists (mk_schema []), [mk_var b_x (TNonNull (TNamed n_Int)) None], (JObj [(b_x, num t_1e100)]).
   vm_compute. auto.
 Qed.
 (* query($x: ID)   {"x":1.5} *)
 Lemma refuted_id_proof :
-  exists S vds vars, accepts go_quirks S no_reparse vds vars = true /\ coercible_all std S vds vars = false.
+  exists S vds vars, accepts old_quirks S no_reparse vds vars = true /\ coercible_all std S vds vars = false.
 Proof.
   exists (mk_schema []), [mk_var b_x (TNamed n_ID) None], (JObj [(b_x, num t_1_5)]).
   vm_compute. auto.
@@ -157,6 +157,19 @@ Proof.
 Qed.
 
 (* ---- the repaired causes: the same inputs under the code as it is now ---- *)
+Example fixed_int_fraction :
+  accepts go_quirks (mk_schema [mk_input b_In [mk_field b_k (TNamed n_Int) None]]) no_reparse
+          [mk_var b_x (TNamed b_In) None] (JObj [(b_x, JObj [(b_k, num t_1_5)])]) = false.
+Proof. vm_compute. reflexivity. Qed.
+Example fixed_int_1e100_and_range :
+  accepts go_quirks (mk_schema []) no_reparse [mk_var b_x (TNonNull (TNamed n_Int)) None] (JObj [(b_x, num t_1e100)]) = false
+  /\ accepts go_quirks (mk_schema []) no_reparse [mk_var b_x (TNamed n_Int) None] (JObj [(b_x, num [50;49;52;55;52;56;51;54;52;56])]) = false
+  /\ accepts go_quirks (mk_schema []) no_reparse [mk_var b_x (TNamed n_Int) None] (JObj [(b_x, num [45;50;49;52;55;52;56;51;54;52;56])]) = true.
+Proof. vm_compute. repeat split; reflexivity. Qed.
+Example fixed_id_fraction :
+  accepts go_quirks (mk_schema []) no_reparse [mk_var b_x (TNamed n_ID) None] (JObj [(b_x, num t_1_5)]) = false
+  /\ accepts go_quirks (mk_schema []) no_reparse [mk_var b_x (TNamed n_ID) None] (JObj [(b_x, num [57;57;57;57;57;57;57;57;57;57;57;57;57;57;57;57;57;57;57;57;57;57])]) = true.
+Proof. vm_compute. split; reflexivity. Qed.
 Example fixed_remap_collision :
   exists p, pipeline go_quirks (mk_schema [mk_scalar n_Upload]) no_reparse
                      [mk_var b_a (TNonNull (TNamed n_Upload)) None; mk_var b_q (TNamed n_Int) None] (JObj [(b_q, num t_1)])
@@ -188,19 +201,20 @@ Example fixed_inject_reparse :
 Proof. eexists. vm_compute. reflexivity. Qed.
 
 (* ------------------------------------------------------------------ accept_iff_coercible: what is true *)
-(* the code as it is: Int / ID weakened to "JSON number" ([weak]); what is left of the other causes (Upload) is
+(* the code as it is, against the specification itself ([std]: Int = 32-bit integer token, ID = string or integer
+   token -- no weakening left since the Int / ID repairs); what is left of the other causes (Upload) is
    excluded by an explicit boolean condition; the rest is well-formedness of the schema / operation / JSON *)
 Theorem accept_iff_coercible_partial_proof : forall S reparse vds ms,
     fields_nodup S = true ->                  (* schema validity: field names of an input object differ *)
     oneof_no_defaults S = true ->             (* schema validity: OneOf input objects have no defaults *)
-    field_defaults_ok weak_strict S = true -> (* schema validity: input field defaults are valid for their type *)
+    field_defaults_ok std_strict S = true ->  (* schema validity: input field defaults are valid for their type *)
     json_nodup (JObj ms) = true ->            (* no duplicate keys in the variables JSON *)
     vars_nodup vds = true ->                  (* variable names differ *)
     no_upload_ref S vds = true ->             (* excludes upload-exempt-from-non-null (and keeps the mapper's renaming a plain permutation) *)
-    forallb (var_default_ok S weak) vds = true ->
+    forallb (var_default_ok S std) vds = true ->
                                               (* operation validity: a variable's default is a value of its type (full reading: it may need list coercion) *)
     normalise go_quirks S reparse vds ms <> NFuel ->   (* the model's recursion budget for nested defaults suffices *)
-    (accepts go_quirks S reparse vds (JObj ms) = true <-> coercible_all weak S vds (JObj ms) = true).
+    (accepts go_quirks S reparse vds (JObj ms) = true <-> coercible_all std S vds (JObj ms) = true).
 Proof.
   intros. apply (pipeline_full_iff_coercible S reparse go_quirks); auto.
 Qed.
@@ -224,7 +238,7 @@ Qed.
 Theorem validator_accept_iff_partial_proof : forall S vds vars,
     fields_nodup S = true -> json_nodup vars = true ->
     no_upload_ref S vds = true ->
-    (validate go_quirks S vds vars = None <-> coercible_all weak_strict S (map strip_default vds) vars = true).
+    (validate go_quirks S vds vars = None <-> coercible_all std_strict S (map strip_default vds) vars = true).
 Proof. intros. apply (validate_iff_coercible go_quirks); auto. Qed.
 
 Theorem validator_accept_iff_repaired_proof : forall S vds vars,
@@ -257,11 +271,10 @@ Definition ex2_schema : schema :=
 Definition ex2_ms : list (bytes * json) :=
   [(b_x, JObj [(b_k, num [50]); (b_l, JObj [(b_k, num t_3); (b_b, JObj [(b_k, num [52])])])])].
 Example accept_iff_coercible_partial_shaped_hyps :
-  fields_nodup ex2_schema = true /\ oneof_no_defaults ex2_schema = true /\ field_defaults_ok weak_strict ex2_schema = true
+  fields_nodup ex2_schema = true /\ oneof_no_defaults ex2_schema = true /\ field_defaults_ok std_strict ex2_schema = true
   /\ json_nodup (JObj ex2_ms) = true /\ vars_nodup ex_vars = true
   /\ no_upload_ref ex2_schema ex_vars = true
-  /\ forallb (var_default_ok ex2_schema weak) ex_vars = true
-  /\ field_defaults_ok std_strict ex2_schema = true /\ forallb (var_default_ok ex2_schema std) ex_vars = true
+  /\ forallb (var_default_ok ex2_schema std) ex_vars = true
   /\ pipeline go_quirks ex2_schema no_reparse ex_vars (JObj ex2_ms)
      = PDone (JObj [(b_y, num [55]);
                     (b_x, JArr [JObj [(b_k, num [50]);
@@ -275,9 +288,9 @@ Example accept_iff_coercible_partial_shaped_fuel : normalise go_quirks ex2_schem
 Proof. vm_compute. discriminate. Qed.
 
 Example accept_iff_coercible_partial_hyps :
-  fields_nodup ex_schema = true /\ oneof_no_defaults ex_schema = true /\ field_defaults_ok weak_strict ex_schema = true
+  fields_nodup ex_schema = true /\ oneof_no_defaults ex_schema = true /\ field_defaults_ok std_strict ex_schema = true
   /\ json_nodup (JObj ex_ms) = true /\ vars_nodup ex_vars = true /\ no_upload_ref ex_schema ex_vars = true
-  /\ forallb (var_default_ok ex_schema weak) ex_vars = true
+  /\ forallb (var_default_ok ex_schema std) ex_vars = true
   /\ accepts go_quirks ex_schema no_reparse ex_vars (JObj ex_ms) = true
   /\ jdepth (JObj ex_ms) = 3%nat.
 Proof. vm_compute. repeat split; reflexivity. Qed.
@@ -296,7 +309,7 @@ Proof. eexists. split; [vm_compute; reflexivity|vm_compute; discriminate]. Qed.
 Example default_needing_nested_coercion :
   let vds := [mk_var b_x (TList (TList (TNonNull (TNamed n_Int)))) (Some (VList [VInt t_1]));
               mk_var b_y (TList (TList (TNamed n_Int))) (Some (VInt [53]))] in
-  forallb (var_default_ok (mk_schema []) weak) vds = true
+  forallb (var_default_ok (mk_schema []) std) vds = true
   /\ pipeline go_quirks (mk_schema []) no_reparse vds (JObj [])
      = PDone (JObj [(b_y, JArr [JArr [num [53]]]); (b_x, JArr [JArr [num t_1]])]) None.
 Proof. vm_compute. split; reflexivity. Qed.
@@ -340,14 +353,14 @@ Theorem first_offender_single_variable_proof : forall S vd vars e,
     fields_nodup S = true -> json_nodup vars = true ->
     no_upload_ref S [vd] = true ->
     validate go_quirks S [vd] vars = Some e ->
-    e_var e = vd_name vd /\ coercible_var weak_strict S vars (strip_default vd) = false.
+    e_var e = vd_name vd /\ coercible_var std_strict S vars (strip_default vd) = false.
 Proof.
   intros S vd vars e Hf Hn HU H.
   destruct (validate_error_offending go_quirks S [vd] vars e Hf H) as [vd' [p [Hin [Hv _]]]].
   destruct Hin as [->|[]]. split; auto.
-  destruct (coercible_var weak_strict S vars (strip_default vd')) eqn:E; auto.
+  destruct (coercible_var std_strict S vars (strip_default vd')) eqn:E; auto.
   assert (Hacc : validate go_quirks S [vd'] vars = None).
-  { apply (validate_iff_coercible go_quirks); auto. simpl. change (dialect_of go_quirks) with weak_strict. rewrite E. reflexivity. }
+  { apply (validate_iff_coercible go_quirks); auto. simpl. change (dialect_of go_quirks) with std_strict. rewrite E. reflexivity. }
   congruence.
 Qed.
 
